@@ -55,6 +55,16 @@ class SSAValue:
     def op(self):
         return self.owner
 
+    def replace_uses_with_if(self, value, predicate):
+        """recorded, not performed: the contract reads `replaced` to see which value users now see"""
+        self.replaced = (value, predicate)
+
+    def replace_all_uses_with(self, value):
+        self.replaced = (value, None)
+
+    def replace_by(self, value):
+        self.replaced = (value, None)
+
 
 class OpResult(SSAValue):
     @property
@@ -81,16 +91,6 @@ class BlockArgument(SSAValue):
             k += 1
         return -1
 
-    def replace_uses_with_if(self, value, predicate):
-        """recorded, not performed: the contract reads `replaced` to see which value users now see"""
-        self.replaced = (value, predicate)
-
-    def replace_all_uses_with(self, value):
-        self.replaced = (value, None)
-
-    def replace_by(self, value):
-        self.replaced = (value, None)
-
 
 def den(x):
     """run-time integer denoted by an SSA value / single-result op / python int"""
@@ -102,7 +102,8 @@ def den(x):
 
 
 class Operation:
-    """base of all op stubs: keeps operands/results/attributes and a parent link"""
+    """base of all op stubs: keeps operands/results/attributes and FAITHFUL parent links
+    (op.parent = Block, block.parent = Region, region.parent = Operation)"""
 
     def _init_op(self, operands, result_dens, result_types=None, attributes=None):
         self.operands = [SSAValue.get(o) for o in operands]
@@ -127,11 +128,57 @@ class Operation:
     def res(self):
         return self.results[0]
 
-    def parent_op(self):
-        return self.parent
-
     def parent_block(self):
         return self.parent
+
+    def parent_region(self):
+        b = self.parent
+        return b.parent if b is not None else None
+
+    def parent_op(self):
+        b = self.parent
+        if b is None:
+            return None
+        r = b.parent
+        if r is None:
+            return None
+        return r.parent
+
+    def _pos(self):
+        k = 0
+        for o in self.parent.ops:
+            if o is self:
+                return k
+            k += 1
+        return -1
+
+    @property
+    def prev_op(self):
+        if self.parent is None:
+            return None
+        i = self._pos()
+        return self.parent.ops[i - 1] if i > 0 else None
+
+    @property
+    def next_op(self):
+        if self.parent is None:
+            return None
+        i = self._pos()
+        return self.parent.ops[i + 1] if i + 1 < len(self.parent.ops) else None
+
+    def walk(self, reverse=False, region_first=False):
+        out = [self]
+        for r in self.regions:
+            for b in r.blocks:
+                for o in b.ops:
+                    out.extend(o.walk())
+        return out
+
+    def get_toplevel_object(self):
+        o = self
+        while o.parent_op() is not None:
+            o = o.parent_op()
+        return o
 
 
 class Block:
@@ -150,10 +197,17 @@ class Block:
         for o in ops:
             self.add_op(o)
 
-    def insert_ops_before(self, ops, anchor):
+    def _index_of(self, anchor):
         i = 0
         while i < len(self.ops) and self.ops[i] is not anchor:
             i += 1
+        return i
+
+    def get_operation_index(self, op):
+        return self._index_of(op)
+
+    def insert_ops_before(self, ops, anchor):
+        i = self._index_of(anchor)
         k = 0
         for o in ops:
             o.parent = self
@@ -164,14 +218,15 @@ class Block:
         self.insert_ops_before([op], anchor)
 
     def insert_ops_after(self, ops, anchor):
-        i = 0
-        while i < len(self.ops) and self.ops[i] is not anchor:
-            i += 1
+        i = self._index_of(anchor)
         k = 1
         for o in ops:
             o.parent = self
             self.ops.insert(i + k, o)
             k += 1
+
+    def insert_op_after(self, op, anchor):
+        self.insert_ops_after([op], anchor)
 
     @property
     def first_op(self):
@@ -181,8 +236,21 @@ class Block:
     def last_op(self):
         return self.ops[-1] if len(self.ops) > 0 else None
 
-    def parent_op(self):
+    def parent_region(self):
         return self.parent
+
+    def parent_op(self):
+        return self.parent.parent if self.parent is not None else None
+
+    def parent_block(self):
+        o = self.parent_op()
+        return o.parent if o is not None else None
+
+    def walk(self, reverse=False):
+        out = []
+        for o in self.ops:
+            out.extend(o.walk())
+        return out
 
 
 class Region:
@@ -205,6 +273,15 @@ class Region:
     @property
     def ops(self):
         return self.blocks[0].ops
+
+    def parent_op(self):
+        return self.parent
+
+    def walk(self, reverse=False):
+        out = []
+        for b in self.blocks:
+            out.extend(b.walk())
+        return out
 
 
 class Dialect:
